@@ -344,6 +344,8 @@ async fn episode(p: &EpParams) -> EpReport {
                     let late = eps[0].posts().iter().filter(|r| r.sub == pname && r.vt_begin > t_del + 20 * MS).count();
                     if late > 0 {
                         rep.viol("C14", "C14:post-after-delete:page-in-flight", format!("{} message(s) of a page of 30 were POSTed for {} more than 20 ms after its DeleteSubscription had returned ({} had been POSTed before)", late, short(&pname), seen));
+                        // seen from C11: a deleted subscription receives nothing further
+                        rep.viol("C11", "C11:pushed-after-delete-returned", format!("{} message(s) were POSTed for {} more than 20 ms after its DeleteSubscription had returned", late, short(&pname)));
                     }
                     rep.inc("deleted_while_a_page_was_in_flight");
                 } else {
